@@ -712,3 +712,252 @@ Example example_fn_accepted_and_returns :
   (exists s', go_call 20 example_fn [LitV (LitInt 1); LitV (LitBool true)] = OReturn (LitV (LitInt 24)) s') /\
   (exists s', go_call 20 example_fn [LitV (LitInt 40); LitV (LitBool false)] = OReturn (LitV (LitInt 81)) s').
 Proof. repeat split; eexists; vm_compute; reflexivity. Qed.
+
+(* ---------------------------------------------------------------- the function header *)
+(* the translator's environment can be extended at the low-priority end *)
+Lemma tlookup_app x G E k : tlookup x G = Some k -> tlookup x (G ++ E)%list = Some k.
+Proof. induction G as [|[y k'] G IH]; cbn; [discriminate|]. destruct (String.eqb x y); auto. Qed.
+
+Lemma tr_expr_ext E : forall G e e', tr_expr G e = Some e' -> tr_expr (G ++ E)%list e = Some e'.
+Proof.
+  intros G. induction e as [n|b|x|op a IHa b IHb|a IHa]; cbn [tr_expr]; intros e' H; auto.
+  - destruct (tlookup x G) as [k|] eqn:El; [|discriminate]. rewrite (tlookup_app _ _ E _ El). exact H.
+  - destruct (tr_expr G a) as [a'|]; [|discriminate]. destruct (tr_expr G b) as [b'|]; [|discriminate].
+    rewrite (IHa _ eq_refl), (IHb _ eq_refl). exact H.
+  - destruct (tr_expr G a) as [a'|]; [|discriminate]. rewrite (IHa _ eq_refl). exact H.
+Qed.
+
+Lemma type_of_ext E G e e' : tr_expr G e = Some e' -> type_of (G ++ E)%list e = type_of G e.
+Proof.
+  revert e'. induction e as [n|b|x|op a IHa b IHb|a IHa]; cbn [tr_expr type_of]; intros e' H; auto.
+  - destruct (tlookup x G) as [k|] eqn:El; [|discriminate]. rewrite (tlookup_app _ _ E _ El). reflexivity.
+  - destruct (tr_expr G a) as [a'|]; [|discriminate]. destruct op; auto; eapply IHa; reflexivity.
+Qed.
+
+Lemma tr_simple_ext E G s x e G' :
+  tr_simple G s = Some (x, e, G') -> tr_simple (G ++ E)%list s = Some (x, e, (G' ++ E)%list).
+Proof.
+  destruct s as [y e0|y t [e0|]|y e0|op y e0|inc y|c th el|e0]; cbn [tr_simple]; intros H; try discriminate.
+  - destruct (tr_expr G e0) as [e'|] eqn:Et; [|discriminate]. rewrite (tr_expr_ext E _ _ _ Et), (type_of_ext E _ _ _ Et).
+    injection H as <- <- <-. reflexivity.
+  - destruct (tr_expr G e0) as [e'|] eqn:Et; [|discriminate]. rewrite (tr_expr_ext E _ _ _ Et).
+    injection H as <- <- <-. reflexivity.
+  - injection H as <- <- <-. reflexivity.
+  - destruct (tlookup y G) as [[[] t]|] eqn:El; try discriminate. rewrite (tlookup_app _ _ E _ El).
+    destruct (tr_expr G e0) as [e'|] eqn:Et; [|discriminate]. rewrite (tr_expr_ext E _ _ _ Et).
+    injection H as <- <- <-. reflexivity.
+  - destruct (tlookup y G) as [[[] t]|] eqn:El; try discriminate. rewrite (tlookup_app _ _ E _ El).
+    destruct (tr_expr G e0) as [e'|] eqn:Et; [|discriminate]. rewrite (tr_expr_ext E _ _ _ Et).
+    destruct (assign_op op); [|discriminate]. destruct (tr_binop op _ e'); [|discriminate].
+    injection H as <- <- <-. reflexivity.
+  - destruct (tlookup y G) as [[[] t]|] eqn:El; try discriminate. rewrite (tlookup_app _ _ E _ El).
+    injection H as <- <- <-. reflexivity.
+Qed.
+
+Lemma tr_block_ext E : forall tf G u b e, tr_block tf G u b = Some e -> tr_block tf (G ++ E)%list u b = Some e.
+Proof.
+  induction tf as [|tf IH]; intros G u b e H; [discriminate|].
+  destruct b as [|st rest]; [exact H|].
+  destruct st as [y e0|y t eo|y e0|op y e0|inc y|c th el|e0].
+  1-5: (destruct rest as [|st2 rest2]; cbn [tr_block] in H |- *;
+        [ destruct (tr_simple G _) as [[[x e1] G']|] eqn:Es; [|discriminate];
+          rewrite (tr_simple_ext E _ _ _ _ _ Es); exact H
+        | destruct (tr_simple G _) as [[[x e1] G']|] eqn:Es; [|discriminate];
+          rewrite (tr_simple_ext E _ _ _ _ _ Es);
+          destruct (tr_block tf G' u (BCons st2 rest2)) as [r'|] eqn:Er; [|discriminate];
+          rewrite (IH _ _ _ _ Er); exact H ]).
+  - cbn [tr_block] in H |- *. destruct (tr_expr G c) as [c'|] eqn:Ec; [|discriminate]. rewrite (tr_expr_ext E _ _ _ Ec).
+    destruct (is_nil rest).
+    + destruct (tr_block tf G u th) as [t'|] eqn:Et; [|discriminate]. rewrite (IH _ _ _ _ Et).
+      destruct (tr_block tf G u (block_of el)) as [e'|] eqn:Ee; [|discriminate]. rewrite (IH _ _ _ _ Ee). exact H.
+    + destruct (ends_with_return (bsize th) th).
+      * destruct (is_nil (block_of el)); [|discriminate].
+        destruct (tr_block tf G u th) as [t'|] eqn:Et; [|discriminate]. rewrite (IH _ _ _ _ Et).
+        destruct (tr_block tf G u rest) as [r'|] eqn:Er; [|discriminate]. rewrite (IH _ _ _ _ Er). exact H.
+      * destruct (tr_block tf G Local th) as [t'|] eqn:Et; [|discriminate]. rewrite (IH _ _ _ _ Et).
+        destruct (tr_block tf G Local (block_of el)) as [e'|] eqn:Ee; [|discriminate]. rewrite (IH _ _ _ _ Ee).
+        destruct (tr_block tf G u rest) as [r'|] eqn:Er; [|discriminate]. rewrite (IH _ _ _ _ Er). exact H.
+  - destruct rest; cbn [tr_block] in H |- *; [|discriminate]. destruct u; [|discriminate]. apply tr_expr_ext, H.
+Qed.
+
+Lemma close_app_list a b e : close (a ++ b)%list e = close b (close a e).
+Proof. revert e; induction a as [|[x v] a IH]; intros e; cbn [app close]; auto. Qed.
+
+(* substitutions for distinct names commute *)
+Lemma close_subst_comm x v r e : ~ In x (map fst r) -> close r (subst x v e) = subst x v (close r e).
+Proof.
+  revert e; induction r as [|[y w] r IH]; intros e Hn; cbn [close]; auto.
+  cbn [map fst In] in Hn. rewrite <- IH by tauto. f_equal. apply subst_subst_comm. intros ->. tauto.
+Qed.
+
+Lemma subst_lams x v ps e : ~ In x ps -> subst x v (lams ps e) = lams ps (subst x v e).
+Proof.
+  induction ps as [|p ps IH]; cbn [lams]; intros Hn; auto.
+  unfold Lam. cbn [subst binder_is orb]. destruct (String.eqb x p) eqn:E.
+  - apply String.eqb_eq in E. subst. exfalso. apply Hn. left; reflexivity.
+  - rewrite IH; [reflexivity|]. intros H. apply Hn. right; exact H.
+Qed.
+
+(* evaluation of an application whose function part is replaced by something that evaluates like it *)
+Definition sim (e e' : expr) : Prop := forall s w s', evals e' s w s' -> evals e s w s'.
+
+Lemma sim_app_val e e' a : sim e e' -> sim (App e (Val a)) (App e' (Val a)).
+Proof.
+  intros Hs s w s' [n H]. destruct n as [|[|n]]; try discriminate.
+  rewrite eval_S_unfold in H. unfold eval_step at 1 in H.
+  change (eval (S n) (Val a) s) with (RVal a s) in H. cbv iota in H.
+  destruct (eval (S n) e' s) as [vf s1| |] eqn:Ef; try discriminate.
+  destruct (Hs s vf s1 (ex_intro _ (S n) Ef)) as [m Hm].
+  exists (S (S (n + m))). rewrite eval_S_unfold. unfold eval_step at 1.
+  change (eval (S (n + m)) (Val a) s) with (RVal a s). cbv iota.
+  rewrite (evals_fuel _ _ _ _ _ (S (n + m)) Hm) by lia.
+  destruct vf as [l|fb xb body|v1 v2|p args]; try discriminate.
+  - apply (evals_fuel _ _ _ _ _ (S (n + m)) H). lia.
+  - destruct (Nat.ltb _ _); [exact H|]. destruct (is_loop p).
+    + destruct (expand_loop _ _ _); [|discriminate]. apply (evals_fuel _ _ _ _ _ (S (n + m)) H). lia.
+    + exact H.
+Qed.
+
+Lemma sim_apps e e' args : sim e e' -> sim (fold_left App (map Val args) e) (fold_left App (map Val args) e').
+Proof. revert e e'; induction args as [|a args IH]; intros e e' H; cbn [map fold_left]; [exact H|]. apply IH, sim_app_val, H. Qed.
+
+Lemma sim_beta p b v : sim (App (Lam (BNamed p) b) (Val v)) (subst p v b).
+Proof. intros s w s' H. apply (evals_letin (BNamed p) (Val v) b s v s w s'); [apply evals_val|exact H]. Qed.
+
+Lemma sim_trans a b c : sim a b -> sim b c -> sim a c.
+Proof. intros H1 H2 s w s' H. apply H1, H2, H. Qed.
+
+(* applying the nested lambdas to all arguments *)
+Lemma sim_lams : forall ps args b, NoDup ps -> length args = length ps ->
+  sim (fold_left App (map Val args) (lams ps b)) (close (combine ps args) b).
+Proof.
+  induction ps as [|p ps IH]; intros [|a args] b Hn Hl; cbn in Hl; try discriminate.
+  - intros s w s' H. exact H.
+  - cbn [lams map fold_left combine close]. inversion Hn; subst.
+    eapply sim_trans; [apply sim_apps, sim_beta|]. rewrite subst_lams by assumption. apply IH; [assumption|lia].
+Qed.
+
+Lemma close_rev_nodup : forall r e, NoDup (map fst r) -> close (rev r) e = close r e.
+Proof.
+  induction r as [|[x v] r IH]; intros e Hn; [reflexivity|]. cbn [rev]. inversion Hn; subst.
+  rewrite close_app_list. cbn [close]. rewrite IH by assumption. symmetry. apply close_subst_comm. assumption.
+Qed.
+
+Lemma map_fst_combine {X Y} (l1 : list X) (l2 : list Y) : length l1 = length l2 -> map fst (combine l1 l2) = l1.
+Proof. revert l2; induction l1; intros [|y l2] H; cbn in *; try discriminate; auto. f_equal. apply IHl1. lia. Qed.
+
+Lemma cs_of_rev_combine ps args :
+  cs_of (rev (combine ps (map Imm args))) = rev (combine ps args).
+Proof.
+  unfold cs_of. rewrite map_rev. f_equal. revert args; induction ps as [|p ps IH]; intros [|a args]; cbn; auto. f_equal. apply IH.
+Qed.
+
+(* Go's semantics does not look at bindings it does not need: an environment
+   can be extended at the low-priority end *)
+Lemma glookup_app x r E k : glookup x r = Some k -> glookup x (r ++ E)%list = Some k.
+Proof. induction r as [|[y k'] r IH]; cbn; [discriminate|]. destruct (String.eqb x y); auto. Qed.
+
+Lemma go_expr_ext E r s : forall e v, go_expr r s e = Some v -> go_expr (r ++ E)%list s e = Some v.
+Proof.
+  induction e as [n|b|x|op a IHa b IHb|a IHa]; cbn [go_expr]; intros v H; auto.
+  - destruct (glookup x r) as [k|] eqn:El; [|discriminate]. rewrite (glookup_app _ _ E _ El). exact H.
+  - destruct op;
+      try (destruct (go_expr r s a) as [va|] eqn:Ea; [|discriminate]; rewrite (IHa _ eq_refl);
+           destruct (go_expr r s b) as [vb|] eqn:Eb; [|discriminate]; rewrite (IHb _ eq_refl); exact H).
+    + destruct (go_expr r s a) as [va|] eqn:Ea; [|discriminate]. rewrite (IHa _ eq_refl).
+      destruct va as [[| | |[]| | | |]| | |]; try discriminate; [|exact H].
+      destruct (go_expr r s b) as [vb|] eqn:Eb; [|discriminate]. rewrite (IHb _ eq_refl). exact H.
+    + destruct (go_expr r s a) as [va|] eqn:Ea; [|discriminate]. rewrite (IHa _ eq_refl).
+      destruct va as [[| | |[]| | | |]| | |]; try discriminate; [exact H|].
+      destruct (go_expr r s b) as [vb|] eqn:Eb; [|discriminate]. rewrite (IHb _ eq_refl). exact H.
+  - destruct (go_expr r s a) as [va|] eqn:Ea; [|discriminate]. rewrite (IHa _ eq_refl). exact H.
+Qed.
+
+Lemma go_simple_ext E r s st r1 s1 :
+  go_simple r s st = Some (r1, s1) -> go_simple (r ++ E)%list s st = Some ((r1 ++ E)%list, s1).
+Proof.
+  destruct st as [y e|y t [e|]|y e|op y e|inc y|c th el|e]; cbn [go_simple]; intros H; try discriminate.
+  - destruct (go_expr r s e) as [v|] eqn:Ee; [|discriminate]. rewrite (go_expr_ext E _ _ _ _ Ee). injection H as <- <-. reflexivity.
+  - destruct (go_expr r s e) as [v|] eqn:Ee; [|discriminate]. rewrite (go_expr_ext E _ _ _ _ Ee).
+    destruct (alloc_cell v s). injection H as <- <-. reflexivity.
+  - destruct (alloc_cell (zero_of t) s). injection H as <- <-. reflexivity.
+  - destruct (glookup y r) as [[|b]|] eqn:El; try discriminate. rewrite (glookup_app _ _ E _ El).
+    destruct (go_expr r s e) as [v|] eqn:Ee; [|discriminate]. rewrite (go_expr_ext E _ _ _ _ Ee).
+    destruct (write_cell b v s); [|discriminate]. injection H as <- <-. reflexivity.
+  - destruct (glookup y r) as [[|b]|] eqn:El; try discriminate. rewrite (glookup_app _ _ E _ El).
+    destruct (go_expr r s e) as [v|] eqn:Ee; [|discriminate]. rewrite (go_expr_ext E _ _ _ _ Ee).
+    destruct (read_cell b s); [|discriminate]. destruct (go_binop op v0 v); [|discriminate].
+    destruct (write_cell b v1 s); [|discriminate]. injection H as <- <-. reflexivity.
+  - destruct (glookup y r) as [[|b]|] eqn:El; try discriminate. rewrite (glookup_app _ _ E _ El).
+    destruct (read_cell b s); [|discriminate]. destruct (go_binop _ v _); [|discriminate].
+    destruct (write_cell b v0 s); [|discriminate]. injection H as <- <-. reflexivity.
+Qed.
+
+Lemma go_block_ext E : forall n r s b,
+  match go_block n r s b with
+  | OReturn v s' => go_block n (r ++ E)%list s b = OReturn v s'
+  | ONormal r' s' => go_block n (r ++ E)%list s b = ONormal (r' ++ E)%list s'
+  | _ => True
+  end.
+Proof.
+  induction n as [|n IH]; intros r s b; [exact I|].
+  destruct b as [|st rest]; [reflexivity|].
+  destruct st as [y e|y t eo|y e|op y e|inc y|c th el|e]; cbn [go_block].
+  1-5: (match goal with |- context [go_simple ?r0 ?s0 ?st] => destruct (go_simple r0 s0 st) as [[r1 s1]|] eqn:Eg end; [|exact I];
+        rewrite (go_simple_ext E _ _ _ _ _ Eg); apply IH).
+  - destruct (go_expr r s c) as [vc|] eqn:Ec; [|exact I]. rewrite (go_expr_ext E _ _ _ _ Ec).
+    destruct vc as [[| | |cb| | | |]| | |]; try exact I.
+    pose proof (IH r s (if cb then th else block_of el)) as Hb.
+    destruct (go_block n r s (if cb then th else block_of el)) as [r2 s2|v s2| |]; try exact I.
+    + rewrite Hb. apply IH.
+    + rewrite Hb. reflexivity.
+  - destruct (go_expr r s e) as [v|] eqn:Ee; [|exact I]. rewrite (go_expr_ext E _ _ _ _ Ee). reflexivity.
+Qed.
+
+Lemma sim_beta_rec f p b v : sim (App (Val (RecV (BNamed f) (BNamed p) b)) (Val v)) (subst f (RecV (BNamed f) (BNamed p) b) (subst p v b)).
+Proof.
+  intros s w s' [n H]. exists (S (S n)). rewrite eval_S_unfold. unfold eval_step at 1.
+  change (eval (S n) (Val v) s) with (RVal v s). cbv iota.
+  change (eval (S n) (Val (RecV (BNamed f) (BNamed p) b)) s) with (RVal (RecV (BNamed f) (BNamed p) b) s). cbv iota.
+  cbn [subst']. apply (evals_fuel _ _ _ _ _ (S n) H). lia.
+Qed.
+
+Lemma cs_of_app a b : cs_of (a ++ b)%list = (cs_of a ++ cs_of b)%list.
+Proof. unfold cs_of. apply map_app. Qed.
+
+(* the emitted definition applied to the arguments evaluates to Go's result *)
+Theorem func_correct n fn f args v s' :
+  tr_func fn = Some f ->
+  NoDup (f_name fn :: map fst (f_params fn)) -> f_params fn <> [] ->
+  length args = length (f_params fn) ->
+  go_call n fn args = OReturn v s' ->
+  evals (fold_left App (map Val args) (Val f)) state0 v s'.
+Proof.
+  intros Htr Hnd Hne Hlen Hgo. unfold tr_func in Htr.
+  destruct (tr_block (bsize (f_body fn)) (params_env (f_params fn)) Returned (f_body fn)) as [body|] eqn:Eb; [|discriminate].
+  destruct (f_params fn) as [|[p1 t1] prs] eqn:Eps; [congruence|]. cbn [map fst] in Htr, Hnd. injection Htr as <-.
+  destruct args as [|a1 args]; [discriminate|]. cbn [length] in Hlen.
+  set (name := f_name fn) in *. set (ps := map fst prs) in *.
+  set (F := RecV (BNamed name) (BNamed p1) (lams ps body)).
+  inversion Hnd as [|? ? Hname Hnd1]; subst. inversion Hnd1 as [|? ? Hp1 Hnd2]; subst.
+  assert (Hlps : length args = length ps) by (unfold ps; rewrite map_length; lia).
+  (* the body under the parameters, with the function's own name bound last *)
+  pose proof (tr_block_ext [(name, (false, TU64))] _ _ _ _ _ Eb) as Eb'.
+  set (r0 := rev (combine (p1 :: ps) (map Imm (a1 :: args)))).
+  assert (Hag : agree (params_env ((p1, t1) :: prs) ++ [(name, (false, TU64))])%list (r0 ++ [(name, Imm F)])%list state0).
+  { apply agree_snoc. unfold r0. replace (p1 :: ps) with (map fst ((p1, t1) :: prs)) by reflexivity. apply agree_params. cbn [length]. lia. }
+  pose proof (block_correct n _ _ Returned _ body _ state0 Eb' Hag) as Hp.
+  unfold go_call in Hgo. rewrite Eps in Hgo.
+  change (go_block n r0 state0 (f_body fn) = OReturn v s') in Hgo.
+  pose proof (go_block_ext [(name, Imm F)] n r0 state0 (f_body fn)) as Hext. rewrite Hgo in Hext.
+  rewrite Hext in Hp. cbn [post] in Hp. destruct Hp as [_ Hev].
+  rewrite cs_of_app in Hev. unfold r0 in Hev. rewrite cs_of_rev_combine, close_app_list in Hev. cbn [cs_of map fst snd val_of close] in Hev.
+  rewrite close_rev_nodup in Hev by (rewrite map_fst_combine by (cbn [length]; lia); constructor; assumption).
+  cbn [combine close] in Hev.
+  rewrite <- close_subst_comm in Hev by (rewrite map_fst_combine by lia; intros Hc; apply Hname; right; exact Hc).
+  (* now the applications *)
+  cbn [map fold_left].
+  eapply (sim_apps _ _ args (sim_beta_rec name p1 (lams ps body) a1)).
+  rewrite !subst_lams by (intros Hc; first [apply Hp1, Hc | apply Hname; right; exact Hc]).
+  apply (sim_lams ps args _ Hnd2 Hlps). exact Hev.
+Qed.
